@@ -231,6 +231,42 @@ def run_cases(chk, tier):
         lpts = [where[w](i) for i, w in enumerate(pat)]
         run_case(chk, r, lpts, "polygon", rects, ("inner", "inner", "left", "right")[k % 4], ("default", "string")[k % 2], clash=False, tag="patterns")
     chk.count("match-patterns")
+    # frames that hold another geometry column in front of the active one: the join is made on the active columns and the result
+    # carries the geometry of the side it keeps (pandas and, with its description agreeing with its partitions, Dask)
+    import dask
+    import dask.dataframe as dd
+    from spatialpandas import GeoDataFrame, sjoin
+    for k, how in enumerate(("inner", "left", "right", "inner", "left")):
+        lpts = [[r.randint(0, 12), r.randint(0, 12)] for _ in range(6)]
+        decoy = [[50 + i, 50] for i in range(6)]
+        shapes = [[[0, 0, 7, 0, 7, 7, 0, 7, 0, 0]], [[5, 5, 13, 5, 13, 13, 5, 13, 5, 5]]]
+        far = [[[90, 90, 95, 90, 95, 95, 90, 90]], [[80, 80, 85, 80, 85, 85, 80, 80]]]
+        ldf = GeoDataFrame({"aux": geo.make_array("point", decoy, "float64"), "pts": geo.make_array("point", lpts, "float64"), "lv": list(range(6))}).set_geometry("pts")
+        rdf = GeoDataFrame({"aux2": geo.make_array("polygon", far, "float64"), "shape": geo.make_array("polygon", shapes, "float64"), "rv": [10, 11]}).set_geometry("shape")
+        rep = dict(api="sjoin", how=how, left_points=lpts, kind="polygon", right_shapes=shapes, layout="another geometry column in front of the active one")
+        want_active = "shape" if how == "right" else "pts"
+        want_pairs = sorted(str((None if i is None else i, None if j is None else 10 + j)) for i, j in model_join(how, lpts, "polygon", shapes))
+
+        def pairs_of(res):
+            return sorted(str((None if pd.isna(a) else int(a), None if pd.isna(b) else int(b))) for a, b in zip(res["lv"], res["rv"]))
+        try:
+            res = sjoin(ldf, rdf, how=how)
+            chk.evaluated(len(res))
+            if type(res).__name__ != "GeoDataFrame" or res.geometry.name != want_active:
+                chk.violation(f"sjoin/{how}/result-geometry-is-not-the-joined-column", dict(rep, got=str(getattr(res, "_geometry", None)), expected=want_active), size=6)
+            elif pairs_of(res) != want_pairs:
+                chk.violation(f"sjoin/{how}/rows-differ/other-geometry-columns", dict(rep, got=pairs_of(res), expected=want_pairs), size=6)
+            if how != "right":
+                dres = sjoin(dd.from_pandas(ldf, npartitions=2), rdf, how=how)
+                per = [getattr(p_, "_geometry", None) for p_ in dask.compute(*dres.to_delayed(), scheduler="synchronous")]
+                comp = dres.compute(scheduler="synchronous")
+                if dres.geometry.name != want_active or any(p_ != want_active for p_ in per) or comp.geometry.name != want_active or \
+                        pairs_of(comp) != want_pairs:
+                    chk.violation(f"sjoin/{how}/dask-result-description-and-partitions-disagree", dict(rep, description=dres.geometry.name, partitions=per,
+                                                                                                    computed=comp.geometry.name), size=6)
+        except Exception as e:  # noqa: BLE001
+            chk.violation(f"sjoin/{how}/raises-{common.err_kind(e)}/other-geometry-columns", dict(rep, error=repr(e)[:300]), size=6)
+        chk.count("other-geometry-columns")
     # name clash with the generated index columns must be rejected
     from spatialpandas import GeoDataFrame, sjoin
     l = GeoDataFrame({"index_right": [1.0], "geometry": geo.make_array("point", [[0, 0]], "float64")})
